@@ -102,6 +102,13 @@ func (df *DataFrame) SortValues(by []string, ascending ...bool) (*DataFrame, err
 		isAscending = ascending[0]
 	}
 
+	// every sort column must exist (Less would dereference a missing one)
+	for _, colName := range by {
+		if _, exists := df.Columns[colName]; !exists {
+			return NewDataFrame(), fmt.Errorf("column '%s' does not exist", colName)
+		}
+	}
+
 	// we create a new DataFrame to copy the data into for mutilation
 	sortedDf := NewDataFrame()
 	for name, col := range df.Columns {
